@@ -56,6 +56,10 @@ theorem altEnd_head_selAcc (q : List Ev) (hq : ∀ e ∈ q, isRecvEv e = true)
     have hne := h.1
     cases b <;> simp_all [isRecvEv]
 
+/-- Commit events carry no tag: they are never stale. -/
+theorem commitEv_not_stale (c : Cfg) (ev : Ev) (h : isCommitEv ev = true) : stale c ev = false := by
+  cases ev <;> simp_all [isCommitEv, stale]
+
 structure ReplayInv (c : Cfg) : Prop where
   notClosed : c.closed = false
   notStopped : c.stopped = false
@@ -222,6 +226,7 @@ theorem replayInv_step (c : Cfg) (a : Act) (ha : a.commitOnly = true) (h : Repla
     · rename_i ev cur hp
       have hst := replay_commit_st c h ev cur hp
       have hce := (h.loaded ev cur hp).1
+      rw [if_neg (by simp [commitEv_not_stale c ev hce])]
       refine ⟨?_, ?_, ?_, ?_, ?_, ?_, ?_, ?_⟩
       · rw [commit_closed, h.notClosed]; cases ev <;> simp_all [isCommitEv]
       · rw [commit_stopped]; exact h.notStopped
@@ -297,6 +302,7 @@ theorem replay_run_steps_keep_state (c : Cfg) (h : ReplayInv c) :
   · simp only [stepLive]
     cases hp : c.pc with
     | idle => simp [h.notStopped]
-    | loaded ev cur => simpa [h.notStopped] using replay_commit_st c h ev cur hp
+    | loaded ev cur =>
+      simpa [h.notStopped, commitEv_not_stale c ev (h.loaded ev cur hp).1] using replay_commit_st c h ev cur hp
 
 end GoSecs.Sup
